@@ -773,6 +773,20 @@ def get_retval(x: Trace[X, R]) -> R:
     return x.get_retval()
 
 
+def _where_leading(check, x, y):
+    """`jnp.where(check, x, y)` with `check` aligned to the *leading* axes.
+
+    A condition stored in a vectorized trace has the batch axes (lanes, scan
+    steps) of that trace, while the values it selects between may have
+    further event axes; NumPy broadcasting would align them from the right.
+    """
+    check = jnp.asarray(check)
+    extra = max(jnp.ndim(x), jnp.ndim(y)) - check.ndim
+    if extra > 0:
+        check = jnp.reshape(check, check.shape + (1,) * extra)
+    return jnp.where(check, x, y)
+
+
 ##############
 # Selections #
 ##############
@@ -1666,7 +1680,9 @@ class Distribution(Generic[X], GFI[X, X]):
         """
         if check is not None:
             # Conditional merge using jnp.where
-            merged = jtu.tree_map(lambda v1, v2: jnp.where(check, v1, v2), x, x_)
+            merged = jtu.tree_map(
+                lambda v1, v2: _where_leading(check, v1, v2), x, x_
+            )
             # No values are truly "discarded" in conditional selection
             return merged, None
         else:
@@ -2256,7 +2272,9 @@ class Fn(
                     if check is not None:
                         # Use conditional selection at the leaf
                         result[key] = jtu.tree_map(
-                            lambda v1, v2: jnp.where(check, v1, v2), val_x, val_x_
+                            lambda v1, v2: _where_leading(check, v1, v2),
+                            val_x,
+                            val_x_,
                         )
                         # In conditional merge, nothing is truly discarded
                     else:
@@ -2640,7 +2658,10 @@ class CondTr(Generic[X, R], Trace[X, R]):
         return (self.check, *self.trs[0].get_args())
 
     def get_retval(self) -> R:
-        return jnp.where(self.check, *map(get_retval, self.trs))
+        return jtu.tree_map(
+            lambda r, r_: _where_leading(self.check, r, r_),
+            *map(get_retval, self.trs),
+        )
 
     def get_score(self) -> Score:
         return jnp.where(self.check, *map(get_score, self.trs))
